@@ -180,8 +180,19 @@ def run(R):
     # machine level: the compiled library, assembly included, under valgrind/lackey
     secrets = [0, 2, 11, 12, 15, 18] if R.tier == "quick" else [0, 1, 2, 3, 8, 11, 12, 13, 15, 17, 18, 19, 20, 21]
     labs = ["default", "noavx2"] + (["purego"] if R.tier == "thorough" else [])
+    def safe_machine(lab):
+        # the machine-level observation is additional evidence: if its infrastructure (valgrind, the trace parser) fails,
+        # that is noted in the evidence and the verdict rests on the source-level observation alone
+        try:
+            return lab, machine(R, lab, secrets)
+        except (vlib.Inconclusive, subprocess.TimeoutExpired, OSError) as ex:
+            R.notes.append("machine-level observation under %s skipped (infrastructure): %s" % (lab, str(ex)[:400]))
+            R.cov.setdefault("machine_level", {})[lab] = "skipped"
+            return lab, []
+
     with ThreadPoolExecutor(max_workers=len(labs)) as ex:
-        results = list(ex.map(lambda lab: (lab, machine(R, lab, secrets)), labs))
+        results = list(ex.map(safe_machine, labs))
+    results = [(lab, files) for lab, files in results if files]
     for lab, files in results:
         R.count_events(files, key=lambda e: e.get("cfg", "?") + ":" + e.get("name", "?"))
         rej = R.validate(MODULE, files, label=lab + "/machine", cfg="Trace_C08.cfg")
